@@ -972,17 +972,33 @@ def build_unit(template_path, out_path, report_path, defines=None):
     with open(template_path) as f:
         text = f.read()
     # includes: //@include prelude/x.vrs
+    # //@define NAME text...   : textual macro (whole-word) applied to the bodies of later //@include lines
+    defines_txt = {}
     def inc(m):
         p = os.path.join(os.path.dirname(template_path), m.group(1))
         with open(p) as g:
             body = g.read()
+        for k, v in defines_txt.items():
+            body = re.sub(r'\b%s\b' % re.escape(k), lambda _m, v=v: v, body)
         # optional textual parameters:  //@include file A=expr B=expr   (whole-word substitution)
         for kv in (m.group(2) or '').split():
             k, v = kv.split('=', 1)
             body = re.sub(r'\b%s\b' % re.escape(k), v.replace('\\', '\\\\'), body)
         return body
-    for _ in range(4):
-        text = re.sub(r'^[ \t]*//@include (\S+)((?:[ \t]+\w+=\S+)*)[ \t]*$', inc, text, flags=re.M)
+    def process_includes(text):
+        out_lines = []
+        for ln in text.split('\n'):
+            md = re.match(r'^[ \t]*//@define (\w+)(?: (.*))?$', ln)
+            if md:
+                defines_txt[md.group(1)] = (md.group(2) or '').strip()
+                continue
+            mi = re.match(r'^[ \t]*//@include (\S+)((?:[ \t]+\w+=\S+)*)[ \t]*$', ln)
+            if mi:
+                out_lines.append(process_includes(inc(mi)))
+                continue
+            out_lines.append(ln)
+        return '\n'.join(out_lines)
+    text = process_includes(text)
     # conditional blocks: //@if NAME ... //@endif
     defines = defines or set()
     def cond(m):
